@@ -2,6 +2,8 @@ package main
 
 import (
 	"fmt"
+	"sort"
+	"strings"
 	"go/token"
 	"go/types"
 
@@ -72,6 +74,93 @@ func (e *Engine) checkFunctional(fn *ssa.Function) []string {
 }
 
 // structural evaluates a named structural (solver-free) check over the SSA of the loaded packages.
+//
+//	calls-confined|<pkg name>|<callee,callee,...>|<allowed caller keys,...>
+//	    every call (static or deferred/go) to one of the callees made by any function of the
+//	    package (closures included) occurs in one of the allowed functions.
+//	under-contract|<function key,...>
+//	    each listed function exists and has a contract.
 func (e *Engine) structural(spec string) (bool, string) {
+	parts := strings.Split(spec, "|")
+	switch parts[0] {
+	case "calls-confined":
+		if len(parts) != 4 {
+			return false, "bad spec"
+		}
+		callees := map[string]bool{}
+		for _, c := range strings.Split(parts[2], ",") {
+			callees[strings.TrimSpace(c)] = true
+		}
+		allowed := map[string]bool{}
+		for _, c := range strings.Split(parts[3], ",") {
+			if c = strings.TrimSpace(c); c != "" {
+				allowed[c] = true
+			}
+		}
+		var bad []string
+		n := 0
+		for key, fn := range e.funcs {
+			pk := fnPackage(fn)
+			if pk == nil || pk.Name() != parts[1] || fn.Blocks == nil {
+				continue
+			}
+			for _, b := range fn.Blocks {
+				for _, ins := range b.Instrs {
+					ci, ok := ins.(ssa.CallInstruction)
+					if !ok {
+						continue
+					}
+					c := ci.Common()
+					name := ""
+					if c.IsInvoke() {
+						name = "(" + normName(types.TypeString(c.Value.Type(), nil)) + ")." + c.Method.Name()
+					} else if f := c.StaticCallee(); f != nil {
+						name = normName(f.String())
+					}
+					if callees[name] {
+						n++
+						if !allowed[key] {
+							bad = append(bad, fmt.Sprintf("%s calls %s at %s", key, name, e.fset.Position(ins.Pos())))
+						}
+					}
+				}
+				// function values taken without a call (e.g. passing os.Open as a value)
+				for _, ins := range b.Instrs {
+					for _, op := range ins.Operands(nil) {
+						if f, ok := (*op).(*ssa.Function); ok && callees[normName(f.String())] {
+							if ci, isCall := ins.(ssa.CallInstruction); isCall && ci.Common().Value == f {
+								continue
+							}
+							if !allowed[key] {
+								bad = append(bad, fmt.Sprintf("%s takes %s as a value", key, normName(f.String())))
+							}
+						}
+					}
+				}
+			}
+		}
+		if len(bad) > 0 {
+			sort.Strings(bad)
+			return false, strings.Join(bad, "\n")
+		}
+		return true, fmt.Sprintf("%d call sites, all inside the allowed functions", n)
+	case "under-contract":
+		for _, k := range strings.Split(parts[1], ",") {
+			k = strings.TrimSpace(k)
+			if e.funcs[k] == nil || e.cons.Funcs[k] == nil {
+				return false, "no function/contract: " + k
+			}
+		}
+		return true, ""
+	}
 	return false, "unknown structural check: " + spec
+}
+
+func fnPackage(fn *ssa.Function) *types.Package {
+	for f := fn; f != nil; f = f.Parent() {
+		if f.Pkg != nil {
+			return f.Pkg.Pkg
+		}
+	}
+	return nil
 }
